@@ -56,7 +56,10 @@ class SkelWalker:
         self.truncated = 0
         self.unknown_calls: dict[str, int] = {}
         self._uid = 0
-        self._caller: list[Sym] = []   # texts of the enclosing `{% call %}` blocks (innermost last)
+        self._caller: list[Any] = []   # the enclosing `{% call %}` blocks (innermost last): the text of one without parameters, the
+                                       # block itself - ("block", node, env, template, macro stack) - of one with parameters
+        self._caller_depth: list[int] = []
+        self._lent = 0                 # macros on the stack that were called by a `{% call %}` block with parameters
         self._rounds: list[str] = []   # "<loop>.<round>" of the template loops being unrolled (outermost first)
         self._loops = 0
         self._module_envs: dict[str, dict[str, Any]] = {}
@@ -111,13 +114,21 @@ class SkelWalker:
                     self.out.extend(self.sym(c, env, tname))
             return
         if isinstance(n, nodes.If):
-            const = self._const_test(n.test, env)
-            if const is True:
-                self.block(n.body, env, tname)
-                return
-            if const is False and not n.elif_:
-                if n.else_:
-                    self.block(n.else_, env, tname)
+            # the arms of the chain (`if` / `elif`...) in order: an arm whose test is decided false is never written, an arm whose
+            # test is decided true is the `else` of the arms before it (nothing after it is ever written)
+            arms: list[list[nodes.Node]] = []
+            last: "list[nodes.Node] | None" = list(n.else_) if n.else_ else None
+            for test, body in [(n.test, n.body)] + [(el.test, el.body) for el in n.elif_]:
+                const = self._const_test(test, env)
+                if const is False:
+                    continue
+                if const is True:
+                    last = list(body)
+                    break
+                arms.append(body)
+            if not arms:
+                if last:
+                    self.block(last, env, tname)
                 return
             # an `if` is no scope in Jinja: what a branch binds (`set`, `set` block, import) is bound after the `if` on the paths
             # through that branch; on the other paths the earlier binding stays
@@ -131,12 +142,10 @@ class SkelWalker:
                 pieces.append(tuple(self.out[start:]))
                 del self.out[start:]
 
-            if const is not False:
-                branch(n.body)
-            for el in n.elif_:
-                branch(el.body)
-            if n.else_:
-                branch(n.else_)
+            for body in arms:
+                branch(body)
+            if last:
+                branch(last)
             else:
                 ends.append(dict(env))
                 pieces.append(())
@@ -145,7 +154,7 @@ class SkelWalker:
                 self.out.extend(self.alt(pieces))
             else:
                 for k, p in enumerate(pieces):
-                    if k and (p or k < len(pieces) - 1 or n.else_):
+                    if k and (p or k < len(pieces) - 1 or last):
                         self._sep(line=True)
                     self.out.extend(p)
             self._merge(env, ends)
@@ -158,7 +167,7 @@ class SkelWalker:
                 # a list the template builds itself (literal items, `map(attribute=...)`, concatenations): one round per item
                 exact = not any(many for _s, many in it[1]) and n.test is None  # the rounds laid out are the rounds there are
                 for k, (s, many) in enumerate(it[1]):
-                    for _ in range((2 if len(self.stack) <= 1 else 1) if many else 1):
+                    for _ in range((2 if self._depth() <= 1 else 1) if many else 1):
                         e2 = dict(env)
                         rnd += 1
                         self._rounds.append(f"{loop}.{rnd}")
@@ -180,7 +189,7 @@ class SkelWalker:
                         finally:
                             self._rounds.pop()
             else:
-                for _ in range(2 if len(self.stack) <= 1 else 1):
+                for _ in range(2 if self._depth() <= 1 else 1):
                     e2 = dict(env)
                     e2["loop"] = ("loop", None)
                     self._bind_target(n.target, n.iter, e2)
@@ -230,6 +239,18 @@ class SkelWalker:
                 self.block(self.jx.templates[tn].tree.body, dict(env), tn)
             return
         if isinstance(n, (nodes.ExprStmt, nodes.Continue, nodes.Break)):
+            return
+        if isinstance(n, nodes.CallBlock) and n.args:
+            # `{% call(a, b) m(...) %}...{% endcall %}`: the text depends on what each `caller(x, y)` inside m gives it - it is
+            # written where `caller` is called, with the block's parameters bound to those arguments (and everything else as it is
+            # bound here: a call block is a closure)
+            self._caller.append(("block", n, dict(env), tname, list(self.stack), self._lent))
+            self._lent += 1  # (the macro called writes this block's text: its loops are unrolled like loops standing here)
+            try:
+                self.out.extend(self.sym(n.call, env, tname))
+            finally:
+                self._lent -= 1
+                self._caller.pop()
             return
         if isinstance(n, (nodes.FilterBlock, nodes.CallBlock)):
             # `{% filter f %}...{% endfilter %}` prints its text through f; `{% call m(...) %}...{% endcall %}` prints m(...), in
@@ -350,6 +371,26 @@ class SkelWalker:
             if isinstance(v, tuple) and len(v) == 2 and v[0] == "loop" and isinstance(v[1], dict):
                 val = v[1][test.attr]
                 return (not val) if neg else val
+        if isinstance(test, nodes.Compare) and len(test.ops) == 1 and test.ops[0].op in ("eq", "ne", "in", "notin"):
+            # both sides are texts the template spells out here (a literal, a parameter / loop variable / `set` variable bound to
+            # one at this place): `kind == "star"` in a call block whose `kind` is what this `caller("star", ...)` was given
+            op, rhs = test.ops[0].op, test.ops[0].expr
+            a = SkelWalker._known_text(test.expr, env)
+            if a is not None:
+                if op in ("eq", "ne"):
+                    b = SkelWalker._known_text(rhs, env)
+                    val = None if b is None else (a == b) == (op == "eq")
+                else:
+                    v = env.get(rhs.name) if isinstance(rhs, nodes.Name) else None
+                    if isinstance(rhs, (nodes.List, nodes.Tuple)):
+                        members = [SkelWalker._known_text(x, env) for x in rhs.items]
+                    elif isinstance(v, tuple) and len(v) == 2 and v[0] == "list" and not any(many for _s, many in v[1]):
+                        members = [SkelWalker._text_of(s) if SkelWalker._kind(s) == "sym" else None for s, _m in v[1]]
+                    else:
+                        members = [None]
+                    val = None if any(m is None for m in members) else (a in members) == (op == "in")
+                if val is not None:
+                    return (not val) if neg else val
         if isinstance(test, (nodes.And, nodes.Or)):
             a, b = SkelWalker._const_test(test.left, env), SkelWalker._const_test(test.right, env)
             absorbing = isinstance(test, nodes.Or)  # `or`: one true operand decides; `and`: one false operand decides
@@ -361,6 +402,37 @@ class SkelWalker:
                 val = not absorbing
             return (not val) if neg else val
         return None
+
+    @staticmethod
+    def _known_text(e: nodes.Node, env: dict[str, Any]) -> "str | None":
+        """the text of e when the template spells it out: a string literal, a name bound to nothing but text, an entry of a
+        literal dict that is nothing but text"""
+        if isinstance(e, nodes.Const):
+            return e.value if isinstance(e.value, str) else None
+        v = env.get(e.name) if isinstance(e, nodes.Name) else SkelWalker._entry(e, env)
+        if isinstance(v, tuple) and SkelWalker._kind(v) == "sym":
+            return SkelWalker._text_of(v)
+        return None
+
+    @staticmethod
+    def _entry(e: nodes.Node, env: dict[str, Any]) -> Any:
+        """`d.key` / `d["key"]` where d is (a name bound to, or an entry of) a dict the template wrote as a literal: the value the
+        literal gives that key (None: not such an expression, or no such key).  `d.items` and the like are dict methods, not keys."""
+        if isinstance(e, nodes.Getattr):
+            base, key, sub = e.node, e.attr, False
+        elif isinstance(e, nodes.Getitem) and isinstance(e.arg, nodes.Const) and isinstance(e.arg.value, str):
+            base, key, sub = e.node, e.arg.value, True
+        else:
+            return None
+        d = env.get(base.name) if isinstance(base, nodes.Name) else SkelWalker._entry(base, env)
+        if not (isinstance(d, tuple) and len(d) == 2 and d[0] == "dict") or (not sub and hasattr(dict, key)):
+            return None
+        return next((v for k, v in d[1] if k == key), None)
+
+    def _depth(self) -> int:
+        """how deep in macro calls the text being written stands (loops are unrolled twice at the top, once deeper); a macro that a
+        call block with parameters calls stands where the block stands"""
+        return len(self.stack) - self._lent
 
     def _cur_indent(self, pending: Sym = ()) -> int:
         """indentation of the virtual line being written (candidates of one dispatch are laid out on lines of their own)"""
@@ -413,6 +485,10 @@ class SkelWalker:
             if isinstance(v, tuple) and (not v or isinstance(v[0], Item)):
                 return v
             return (Item("o", e.name),)
+        if isinstance(e, (nodes.Getattr, nodes.Getitem)):
+            ent = self._entry(e, env)
+            if ent is not None:
+                return self._printed(ent)
         if isinstance(e, nodes.Getattr):
             if e.attr in NAME_ATTRS:
                 return (self._name_item(self.root_of(e, env), tname),)
@@ -504,7 +580,16 @@ class SkelWalker:
 
     def val(self, e: nodes.Node, env: dict[str, Any], tname: str) -> Any:
         lst = self.as_list(e, env, tname)
-        return lst if lst is not None else self.sym(e, env, tname)
+        if lst is not None:
+            return lst
+        if isinstance(e, nodes.Dict):
+            return self._item_val(e, env, tname)
+        ent = self._entry(e, env)
+        if ent is not None:
+            return ent
+        if isinstance(e, nodes.Name) and self._kind(env.get(e.name)) == "dict":
+            return env[e.name]
+        return self.sym(e, env, tname)
 
     def _items_of(self, e: nodes.Node, env: dict[str, Any], tname: str) -> tuple:
         lst = self.as_list(e, env, tname)
@@ -557,10 +642,19 @@ class SkelWalker:
         list / tuple keeps its components; anything else is what it prints as"""
         if isinstance(x, nodes.Name):
             v = env.get(x.name)
-            if isinstance(v, tuple) and v and v[0] in ("macros", "tplmods", "obj", "list"):
+            if isinstance(v, tuple) and v and v[0] in ("macros", "tplmods", "obj", "list", "dict"):
                 return v
         if isinstance(x, (nodes.List, nodes.Tuple)):
             return ("list", tuple((self._item_val(y, env, tname), False) for y in x.items))
+        if isinstance(x, nodes.Dict) and all(isinstance(p.key, nodes.Const) and isinstance(p.key.value, str) for p in x.items):
+            # a dict the template writes as a literal: ("dict", ((key, value), ...)), the last value of a repeated key
+            ents: dict[str, Any] = {}
+            for p in x.items:
+                ents[p.key.value] = self._item_val(p.value, env, tname)
+            return ("dict", tuple(ents.items()))
+        ent = self._entry(x, env)
+        if ent is not None:
+            return ent
         return self.sym(x, env, tname)
 
     def _attr_of(self, root: str, attr: str, tname: str) -> Sym:
@@ -575,6 +669,26 @@ class SkelWalker:
         if isinstance(e, nodes.Name):
             v = env.get(e.name)
             return v if isinstance(v, tuple) and len(v) == 2 and v[0] == "list" else None
+        if isinstance(e, (nodes.Getattr, nodes.Getitem)):
+            v = self._entry(e, env)
+            return v if isinstance(v, tuple) and len(v) == 2 and v[0] == "list" else None
+        view = None
+        if isinstance(e, nodes.Call) and isinstance(e.node, nodes.Getattr) and e.node.attr in ("items", "keys", "values") \
+                and not (e.args or e.kwargs or e.dyn_args or e.dyn_kwargs):
+            view = (e.node.node, e.node.attr)
+        elif isinstance(e, nodes.Filter) and e.name in ("items", "dictsort") and e.node is not None and not (e.args or e.kwargs):
+            view = (e.node, "items")
+        if view is not None:
+            # the entries of a dict the template wrote as a literal, in the order written (`dictsort`: sorted by key)
+            d = self._item_val(view[0], env, tname)
+            if self._kind(d) != "dict":
+                return None
+            ents = sorted(d[1], key=lambda kv: kv[0].lower()) if isinstance(e, nodes.Filter) and e.name == "dictsort" else d[1]
+            if view[1] == "keys":
+                return ("list", tuple((T(k), False) for k, _v in ents))
+            if view[1] == "values":
+                return ("list", tuple((v, False) for _k, v in ents))
+            return ("list", tuple((("list", ((T(k), False), (v, False))), False) for k, v in ents))
         if isinstance(e, nodes.Add):
             if self.as_list(e.left, env, tname) is None and self.as_list(e.right, env, tname) is None:
                 return None
@@ -618,6 +732,11 @@ class SkelWalker:
             if isinstance(v, tuple) and len(v) == 1 and isinstance(v[0], Item) and v[0].kind == "o":
                 return v[0].text
             return e.name
+        ent = self._entry(e, env)
+        if isinstance(ent, tuple) and len(ent) == 2 and ent[0] == "obj":
+            return ent[1]
+        if isinstance(ent, tuple) and len(ent) == 1 and isinstance(ent[0], Item) and ent[0].kind == "o":
+            return ent[0].text
         if isinstance(e, nodes.Getattr):
             return f"{self.root_of(e.node, env)}.{e.attr}"
         if isinstance(e, nodes.Getitem):
@@ -650,7 +769,10 @@ class SkelWalker:
         fn = e.node
         targets: list[tuple[str, str]] = []
         if isinstance(fn, nodes.Name) and fn.name == "caller" and self._caller and "caller" not in env:
-            return self._caller[-1]
+            blk = self._caller[-1]
+            if not (len(blk) == 6 and blk[0] == "block"):
+                return blk
+            return self._call_block(blk, e, env, tname)
         if isinstance(fn, nodes.Name) and fn.name == "super" and self._supers and "super" not in env and not e.args:
             defs, k = self._supers[-1]
             if k == 0:
@@ -697,6 +819,39 @@ class SkelWalker:
                 return (Item("o", txt, self.type_idents),)
         self.unknown_calls[txt.split("(")[0]] = self.unknown_calls.get(txt.split("(")[0], 0) + 1
         return (Item("o", txt),)
+
+    def _call_block(self, blk: tuple, e: nodes.Call, env: dict[str, Any], tname: str) -> Sym:
+        """the text of a call block with parameters for one `caller(...)`: its parameters are bound to the arguments given here
+        (evaluated where `caller` is called), the rest of its names as they were bound where the block stands; the text is written
+        by the template / macro in which the block stands (sites), in the loop rounds in which `caller` is called"""
+        _tag, n, benv, btname, bstack, blent = blk
+        if len(self._caller_depth) >= 3:
+            self.truncated += 1
+            return (Item("o", f"<{btname}::caller>"),)
+        e2 = dict(benv)
+        names = [a.name for a in n.args]
+        nd = len(n.defaults)
+        for i, a in enumerate(n.args):
+            j = i - (len(names) - nd)
+            if j >= 0:
+                e2[a.name] = self.sym(n.defaults[j], e2, btname)
+        for i, a in enumerate(e.args):
+            if i < len(names):
+                e2[names[i]] = self._arg(a, env, tname)
+        for k in e.kwargs:
+            if k.key in names:
+                e2[k.key] = self._arg(k.value, env, tname)
+        saved, self.out = self.out, []
+        saved_stack, self.stack = self.stack, (list(bstack) if bstack and bstack[-1][0] == btname else list(bstack) + [(btname, "<top>")])
+        saved_callers, self._caller = self._caller, self._caller[:-1]  # (`caller()` inside the block is the enclosing macro's)
+        saved_lent, self._lent = self._lent, blent
+        self._caller_depth.append(1)
+        try:
+            self.block(n.body, e2, btname)
+            return tuple(self.out)
+        finally:
+            self._caller_depth.pop()
+            self.out, self.stack, self._caller, self._lent = saved, saved_stack, saved_callers, saved_lent
 
     def inline(self, tn: str, mn: str, e: nodes.Call, env: dict[str, Any], tname: str) -> Sym:
         depth = sum(1 for x in self.stack if x == (tn, mn))
@@ -752,10 +907,15 @@ class SkelWalker:
     def _arg(self, a: nodes.Node, env: dict[str, Any], tname: str) -> Any:
         if isinstance(a, nodes.Name):
             v = env.get(a.name)
-            if isinstance(v, tuple) and v and v[0] in ("macros", "tplmods", "obj", "list"):
+            if isinstance(v, tuple) and v and v[0] in ("macros", "tplmods", "obj", "list", "dict"):
                 return v
             if v is None:
                 return ("obj", a.name)
+        if isinstance(a, nodes.Dict):
+            return self._item_val(a, env, tname)
+        ent = self._entry(a, env)
+        if ent is not None:
+            return ent
         if isinstance(a, (nodes.Getattr, nodes.Getitem)) and not (isinstance(a, nodes.Getattr) and a.attr in NAME_ATTRS):
             return ("obj", self.root_of(a, env))
         return self.sym(a, env, tname)
